@@ -98,13 +98,15 @@ def install(E):
     def snprintf(E, st, fr, I, A):
         buf, n = A[0], A[1]
         fmt = bytes(cchars(E, st, A[2]))
-        if is_sym(n): raise Unsupported('symbolic snprintf size')
+        if is_sym(n):
+            args = [(at, av, info) for (at, av, info) in I['args'] if av is not None]
+            return ('forks', E.fork_arg(st, fr, I, args, 1, 'snprintf size'))
         out = []; ai = 3; i = 0
         while i < len(fmt):
             c = fmt[i]
             if c != 37: out.append(c); i += 1; continue
             j = i + 1
-            while j < len(fmt) and chr(fmt[j]) in '0123456789-+ #.': j += 1
+            while j < len(fmt) and chr(fmt[j]) in '0123456789-+ #.*': j += 1
             mod = b''
             while j < len(fmt) and chr(fmt[j]) in 'lhzjt': mod += bytes([fmt[j]]); j += 1
             conv = chr(fmt[j]); spec = fmt[i + 1:j - len(mod)]
@@ -116,6 +118,33 @@ def install(E):
                 out += fmt_decimal(E, st, v if is_sym(v) else mask(v, bits), bits)
             elif conv == 's' and spec == b'':
                 out += cchars(E, st, A[ai]); ai += 1
+            elif conv == 's' and spec == b'.*':
+                # precision taken from an int argument: at most that many characters of the string (which need not be NUL terminated within them)
+                prec = A[ai]; ai += 1
+                if is_sym(prec):
+                    args = [(at, av, info) for (at, av, info) in I['args'] if av is not None]
+                    return ('forks', E.fork_arg(st, fr, I, args, ai - 1, 'snprintf precision'))
+                prec = sext(mask(prec, 32), 32); p = A[ai]; ai += 1
+                if prec < 0: out += cchars(E, st, p)
+                else:
+                    for k_ in range(prec):
+                        b = E.load(st, p + k_, 1)
+                        if is_sym(b):
+                            if E.feasible(st, b == 0):
+                                if E.feasible(st, b != 0): raise NeedFork(b == 0)
+                                break
+                        elif b == 0: break
+                        out.append(b)
+            elif conv == 's' and spec[:1] == b'.' and spec[1:].isdigit():
+                prec = int(spec[1:]); p = A[ai]; ai += 1
+                for k_ in range(prec):
+                    b = E.load(st, p + k_, 1)
+                    if is_sym(b):
+                        if E.feasible(st, b == 0):
+                            if E.feasible(st, b != 0): raise NeedFork(b == 0)
+                            break
+                    elif b == 0: break
+                    out.append(b)
             elif conv == 'x' and spec == b'02' and not is_sym(A[ai]):
                 out += list(b'%02x' % (A[ai] & 0xffffffff)); ai += 1
             else:
@@ -322,6 +351,17 @@ def install(E):
             return n
         return f
     S['strspn'] = strspn_f(False); S['strcspn'] = strspn_f(True)
+    def readline(E, st, fr, I, A):
+        """GNU readline: the next scripted input line as a malloc'ed string, NULL at end of input.  Lines come from st.aux['readline_lines'];
+        by default two continuation lines that close either kind of open quote, then end of input"""
+        lines = st.aux.get('readline_lines', [list(b'a"\''), list(b'"\'')]); k = st.aux.get('readline_pos', 0)
+        if k >= len(lines): return 0
+        st.aux['readline_pos'] = k + 1
+        a = E.alloc(st, len(lines[k]) + 1, 'heap'); st.allocs[a] = (st.allocs[a][0], 'malloc')
+        for i, b in enumerate(list(lines[k]) + [0]): E.store(st, a + i, 1, b)
+        return a
+    S['readline'] = readline
+    for nm in ('add_history', 'using_history', 'read_history', 'write_history', 'rl_bind_key', 'rl_insert', 'stifle_history'): S[nm] = lambda E, st, fr, I, A: 0
     S['isatty'] = lambda E, st, fr, I, A: st.aux.get('isatty', {}).get(A[0], 0)
     S['fileno'] = lambda E, st, fr, I, A: 0
     S['getenv'] = lambda E, st, fr, I, A: 0
